@@ -22,7 +22,7 @@ Lemma ps_link_fresh isz st ext dl :
              (if dl =? 0 then s_e2i st else s_e2i st ++ [(e, length (s_inodes st))])
              (s_seen st) (s_level st) (Z.max (s_lastbyte st) (e * BS + dl))).
 Proof.
-  intros e Hfresh Hend. unfold ps_link, e in *. cbv zeta. destruct (dl =? 0) eqn:E.
+  intros e Hfresh Hend. unfold ps_link, ps_link_gen, e in *. cbv zeta. destruct (dl =? 0) eqn:E.
   - apply Z.eqb_eq in E. subst dl. cbn [negb Z.eqb]. cbv iota.
     replace (0 * BS + 0 >? isz) with false by lia. reflexivity.
   - rewrite !E. cbn [negb]. cbv iota. destruct Hfresh as [H0|Hn]; [lia|]. rewrite Hn.
